@@ -689,6 +689,9 @@ class Kernel:
 # --------------------------------------------------------------------------
 
 
+_FDINFO = re.compile(r"^/proc/\d+/fdinfo/(\d+)$")
+
+
 class _SimRaw(io.RawIOBase):
     """Raw file whose content is produced at the first read (like seq_file)
     and whose reads fail with ESRCH once the owning PID is gone."""
@@ -718,6 +721,14 @@ class _SimRaw(io.RawIOBase):
                     raise oserr(errno.ESRCH, self._path)
         if self._unread is not None:
             raise oserr(self._unread.code, self._path)
+        if self._pos == 0 and self._pid is not None:
+            # fs/proc/fd.c seq_show(): the descriptor was closed after the
+            # fdinfo file had been opened -> the first read fails with ENOENT
+            m = _FDINFO.match(self._path)
+            if m is not None:
+                p = k.procs.get(self._pid)
+                if p is not None and int(m.group(1)) not in p.fds:
+                    raise oserr(errno.ENOENT, self._path)
         n = min(len(b), len(self._data) - self._pos)
         b[:n] = self._data[self._pos:self._pos + n]
         self._pos += n
@@ -1345,6 +1356,17 @@ def reset_psutil_state(psutil, keep_cpu_last=False):
     C._wn.cache_clear()
     PX.get_terminal_map.cache_clear()
     L.set_scputimes_ntuple.cache_clear()
+    # any other memoised module-level function (also ones a change under test
+    # introduces): a case must not inherit answers from the previous case,
+    # else its replay file would not reproduce on its own
+    for mod in (psutil, C, L, PX):
+        for obj in list(vars(mod).values()):
+            cc = getattr(obj, "cache_clear", None)
+            if callable(cc) and callable(obj) and not isinstance(obj, type):
+                try:
+                    cc()
+                except Exception:  # noqa: BLE001
+                    pass
 
 
 @contextlib.contextmanager
